@@ -52,9 +52,9 @@ def TokJudge (env : Env) (o : TokObs) : Prop :=
     else if o.reviewed then o.res = (env.tokO c o.tok o.time).res
     else (o.res.isError = true ∧ o.res ≠ .error .upstream) ∨ ∃ t', tokCachedAt env c o t'
 
-/-- `LRUExpireCache`: live while `now ≤ stored + ttl`; only cacheable attributes are cached -/
+/-- `LRUExpireCache`: live while `now ≤ stored + ttl` (the look-up is not guarded by `shouldCache`, only the store is) -/
 def sarCachedAt (env : Env) (c : Inst) (o : SarObs) (t' : Time) : Prop :=
-  t' ≤ o.time ∧ shouldCache o.attrs = true ∧
+  t' ≤ o.time ∧
     ∃ st, env.sarO c (specOf o.attrs) t' = .status st ∧ o.res = decideStatus st ∧ o.time ≤ t' + sarTTL env.cfg st
 
 def SarJudge (env : Env) (o : SarObs) : Prop :=
@@ -81,7 +81,7 @@ def tokJudge (env : Env) (cands : List Time) (o : TokObs) : Bool :=
     else (o.res.isError && decide (o.res ≠ .error .upstream)) || cands.any (tokCachedAtB env c o)
 
 def sarCachedAtB (env : Env) (c : Inst) (o : SarObs) (t' : Time) : Bool :=
-  decide (t' ≤ o.time) && shouldCache o.attrs &&
+  decide (t' ≤ o.time) &&
     match env.sarO c (specOf o.attrs) t' with
     | .status st => decide (o.res = decideStatus st) && decide (o.time ≤ t' + sarTTL env.cfg st)
     | .err => false
@@ -128,9 +128,9 @@ theorem tokJudge_sound (env : Env) (cands : List Time) (o : TokObs) (h : tokJudg
 theorem sarCachedAtB_sound (env : Env) (c : Inst) (o : SarObs) (t' : Time)
     (h : sarCachedAtB env c o t' = true) : sarCachedAt env c o t' := by
   unfold sarCachedAtB at h
-  rw [Bool.and_eq_true, Bool.and_eq_true] at h
-  obtain ⟨⟨h1, h2⟩, h3⟩ := h
-  refine ⟨by simpa using h1, h2, ?_⟩
+  rw [Bool.and_eq_true] at h
+  obtain ⟨h1, h3⟩ := h
+  refine ⟨by simpa using h1, ?_⟩
   split at h3
   · rename_i st hst
     rw [Bool.and_eq_true] at h3
